@@ -163,3 +163,28 @@ func zzC05_agg_reframed(n, cut1, cut2 int) {
 	}
 	verifReach("aggregate reframed")
 }
+
+// zzC05_highbits: the field prime has 381 bits, so the top three bits of every 48-byte coordinate of a canonical
+// encoding are zero (in byte 0 they carry the header flags). An accepted G2 public key encoding with any of the top
+// three bits of byte 48 (first byte of the second coordinate) flipped must be refused -- a reader that masks them
+// would accept several strings for one key. (Natively the accepted encoding is that of a real key.)
+func zzC05_highbits(pos int) {
+	b := nondetBytes(g2BytesLen)
+	if verifNative() {
+		kb := make([]byte, 32)
+		kb[31] = 3
+		sk, err := DecodePrivateKey(BLSBLS12381, kb)
+		if err == nil {
+			b = sk.PublicKey().Encode()
+		}
+	}
+	_, err := DecodePublicKey(BLSBLS12381, b)
+	verifAssume(err == nil)
+	m := nondetByte() & 0xe0
+	verifAssume(m != 0)
+	b2 := append([]byte{}, b...)
+	b2[pos] ^= m
+	_, err = DecodePublicKey(BLSBLS12381, b2)
+	verifAssert(err != nil, "an accepted G2 key encoding with a high bit of its second coordinate flipped is refused")
+	verifReach("high bits")
+}
